@@ -111,6 +111,8 @@ NoBlockedSend == \A p \in Procs : pc[p] \in {"send", "dSend"} =>
                     IF Cap = 0 THEN renewer[cur] = "running" ELSE chan[cur] < Cap \/ NonBlockingCancel
 \* lock order: S[g] is only taken while holding M
 LockOrder == \A p \in Procs : "S" \in held[p] => "M" \in held[p]
+\* the table's lock is requested only by a process that holds nothing (LockDiscipline: never a session before the table)
+MTakenFirst == \A p \in Procs : pc[p] \in {"lockM", "dLockM"} => held[p] = {}
 \* mutual exclusion bookkeeping
 TypeOK == /\ M \in Procs \cup {Free} /\ \A g \in Gens : chan[g] \in 0..(IF Cap = 0 THEN 0 ELSE Cap)
 \* every operation that started can finish: no reachable state in which a worker is inside an operation and nothing can move
